@@ -28,6 +28,7 @@ func main() {
 	shared := flag.String("shared", "DB,Schema,Async,objIndex,fieldIndex,objectStore,objectMap", "tracked struct types")
 	entryTypes := flag.String("entry-types", "DB,Search", "types whose exported methods are entry points")
 	unmarshal := flag.String("unmarshal", "", "additional unmarshal functions (name, or importpath.Name), comma separated")
+	marshal := flag.String("marshal", "", "additional encoding functions that read their argument by reflection (importpath.Name), comma separated")
 	flag.Parse()
 	if *src == "" || *out == "" {
 		fmt.Fprintln(os.Stderr, "usage: extract -src <dir> -out <dir> [-module Sod.Gen.Skeleton]")
@@ -41,6 +42,7 @@ func main() {
 	w.shared = set(*shared)
 	w.entryTypes = set(*entryTypes)
 	w.unmarshal = set("unmarshalJsonFile,encoding/json.Unmarshal," + *unmarshal)
+	w.marshal = set("encoding/json.Marshal,encoding/json.MarshalIndent," + *marshal)
 
 	w.run()
 	var order []*spec
